@@ -2330,65 +2330,89 @@ func runR028(c *Ctx) {
 	}{{"ProcessBlockRelease", true}, {"ProcessBlockPut", false}} {
 		okLoop := false
 		var at token.Pos = bare.Pos()
-		for _, g := range bare.AnonFuncs {
-			allInstrs(g, func(ins ssa.Instruction) {
-				cl, ok := ins.(*ssa.Call)
-				if !ok || cl.Call.StaticCallee() == nil || cl.Call.StaticCallee().Name() != m.meth {
-					return
+		// the routines are started by the function itself or by a helper of the package it hands the syncer to
+		type loopScope struct {
+			fn     *ssa.Function
+			syncer ssa.Value
+		}
+		scopes := []loopScope{{bare, ssa.Value(ps)}}
+		allInstrs(bare, func(ins ssa.Instruction) {
+			cl, ok := ins.(*ssa.Call)
+			if !ok {
+				return
+			}
+			h := cl.Call.StaticCallee()
+			if h == nil || h.Pkg != bare.Pkg || len(h.Blocks) == 0 {
+				return
+			}
+			for i, a := range cl.Call.Args {
+				if i < len(h.Params) && contains(root(a, 0), ssa.Value(ps)) {
+					scopes = append(scopes, loopScope{h, h.Params[i]})
 				}
-				if !contains(root(captureOrigin(g, cl.Call.Args[0]), 0), ssa.Value(ps)) {
-					return
-				}
-				// the call sits in a cycle
-				blk := cl.Block()
-				seen := map[*ssa.BasicBlock]bool{}
-				var reach func(b *ssa.BasicBlock) bool
-				reach = func(b *ssa.BasicBlock) bool {
-					for _, s := range b.Succs {
-						if s == blk {
-							return true
-						}
-						if !seen[s] {
-							seen[s] = true
-							if reach(s) {
+			}
+		})
+		for _, sc := range scopes {
+			bare, ps := sc.fn, sc.syncer
+			for _, g := range bare.AnonFuncs {
+				allInstrs(g, func(ins ssa.Instruction) {
+					cl, ok := ins.(*ssa.Call)
+					if !ok || cl.Call.StaticCallee() == nil || cl.Call.StaticCallee().Name() != m.meth {
+						return
+					}
+					if o := captureOrigin(g, cl.Call.Args[0]); o != ps && !contains(root(o, 0), ps) {
+						return
+					}
+					// the call sits in a cycle
+					blk := cl.Block()
+					seen := map[*ssa.BasicBlock]bool{}
+					var reach func(b *ssa.BasicBlock) bool
+					reach = func(b *ssa.BasicBlock) bool {
+						for _, s := range b.Succs {
+							if s == blk {
 								return true
 							}
-						}
-					}
-					return false
-				}
-				if !reach(blk) {
-					return
-				}
-				// the closure is started: bound into a `go` statement or handed to a Go(...) method
-				started := false
-				allInstrs(bare, func(pi ssa.Instruction) {
-					switch x := pi.(type) {
-					case *ssa.Go:
-						if mc, ok := x.Call.Value.(*ssa.MakeClosure); ok && mc.Fn == ssa.Value(g) {
-							started = true
-						}
-					case *ssa.Call:
-						for _, a := range x.Call.Args {
-							if mc, ok := stripConv(a).(*ssa.MakeClosure); ok && mc.Fn == ssa.Value(g) {
-								nm := ""
-								if x.Call.IsInvoke() {
-									nm = x.Call.Method.Name()
-								} else if sc := x.Call.StaticCallee(); sc != nil {
-									nm = sc.Name()
-								}
-								if nm == "Go" {
-									started = true
+							if !seen[s] {
+								seen[s] = true
+								if reach(s) {
+									return true
 								}
 							}
 						}
+						return false
+					}
+					if !reach(blk) {
+						return
+					}
+					// the closure is started: bound into a `go` statement or handed to a Go(...) method
+					started := false
+					allInstrs(bare, func(pi ssa.Instruction) {
+						switch x := pi.(type) {
+						case *ssa.Go:
+							if mc, ok := x.Call.Value.(*ssa.MakeClosure); ok && mc.Fn == ssa.Value(g) {
+								started = true
+							}
+						case *ssa.Call:
+							for _, a := range x.Call.Args {
+								if mc, ok := stripConv(a).(*ssa.MakeClosure); ok && mc.Fn == ssa.Value(g) {
+									nm := ""
+									if x.Call.IsInvoke() {
+										nm = x.Call.Method.Name()
+									} else if sc := x.Call.StaticCallee(); sc != nil {
+										nm = sc.Name()
+									}
+									if nm == "Go" {
+										started = true
+									}
+								}
+							}
+						}
+					})
+					if started {
+						okLoop = true
+						at = cl.Pos()
 					}
 				})
-				if started {
-					okLoop = true
-					at = cl.Pos()
-				}
-			})
+			}
 		}
 		c.Check(okLoop, name, "loop-"+m.meth, c.Pos(at), m.meth+" runs in a loop of a started routine", "PeriodicSyncer."+m.meth+" is not called in a loop of a goroutine / termination-group routine started here: "+map[bool]string{true: "released blocks are never followed by a state write, so their space is never handed back", false: "uploads are never followed by a sync and a state write; nothing survives a restart"}[m.forever])
 	}
@@ -2687,7 +2711,15 @@ func localStoreMethods(c *Ctx) []*ssa.Function {
 func runR057(c *Ctx) {
 	n := 0
 	for _, tf := range localStoreMethods(c) {
-		if tf.Name() == "Put" {
+		// upload paths (the function is handed the buffer.Buffer being stored) are not judged
+		// here: they re-point after validating the client's copy, under R05.1 / R01.x
+		takesUpload := false
+		for _, p := range tf.Params {
+			if n, ok := p.Type().(*types.Named); ok && n.Obj().Name() == "Buffer" && n.Obj().Pkg() != nil && strings.HasSuffix(n.Obj().Pkg().Path(), "/buffer") {
+				takesUpload = true
+			}
+		}
+		if takesUpload {
 			continue
 		}
 		withAnon(tf, func(g *ssa.Function) {
@@ -3700,8 +3732,23 @@ func runR198(c *Ctx) {
 			return
 		}
 		fs := literalStores(bare, cl.Call.Args[1])
-		if _, has := fs["backendName"]; has {
-			lit, app = fs, cl
+		// the record is recognised by what it holds, not by what its fields are called: a string
+		// (the name) and an InstanceNamePatcher
+		rec := map[string]ssa.Value{}
+		for _, v := range fs {
+			switch t := v.Type().(type) {
+			case *types.Basic:
+				if t.Kind() == types.String {
+					rec["backendName"] = v
+				}
+			case *types.Named:
+				if t.Obj().Name() == "InstanceNamePatcher" {
+					rec["instanceNamePatcher"] = v
+				}
+			}
+		}
+		if len(rec) == 2 {
+			lit, app = rec, cl
 		}
 	})
 	if lit == nil {
@@ -4300,24 +4347,75 @@ func runR0211(c *Ctx) {
 				return
 			}
 			nStores++
-			if k, isK := constInt(st.Val); isK && k == 0 {
-				// clamped: on the edge epochCount >= counter
-				if !dominatedByCmpDepth(st.Block(), func(op token.Token, x, y ssa.Value) bool {
-					return (op == token.GEQ && isEpochCount(x) && isCounter(y)) || (op == token.LEQ && isCounter(x) && isEpochCount(y))
-				}, 2) {
-					bad = "the counter is reset without a comparison of the popped block's epoch count with this counter"
+			// judge: value v, produced in block blk, is "counter minus epoch count, clamped at zero"
+			var judge func(blk *ssa.BasicBlock, v ssa.Value, isCtr, isEpc func(ssa.Value) bool, depth int) string
+			judge = func(blk *ssa.BasicBlock, v ssa.Value, isCtr, isEpc func(ssa.Value) bool, depth int) string {
+				if k, isK := constInt(v); isK && k == 0 {
+					// clamped: on the edge epochCount >= counter
+					if !dominatedByCmpDepth(blk, func(op token.Token, x, y ssa.Value) bool {
+						return (op == token.GEQ && isEpc(x) && isCtr(y)) || (op == token.LEQ && isCtr(x) && isEpc(y))
+					}, 2) {
+						return "the counter is reset without a comparison of the popped block's epoch count with this counter"
+					}
+					return ""
 				}
-				return
-			}
-			if bo, isB := st.Val.(*ssa.BinOp); isB && bo.Op == token.SUB && isCounter(bo.X) && isEpochCount(bo.Y) {
-				if !dominatedByCmpDepth(st.Block(), func(op token.Token, x, y ssa.Value) bool {
-					return (op == token.LSS && isEpochCount(x) && isCounter(y)) || (op == token.GTR && isCounter(x) && isEpochCount(y))
-				}, 2) {
-					bad = "the subtraction is not guarded by `epoch count < counter`"
+				if bo, isB := v.(*ssa.BinOp); isB && bo.Op == token.SUB && isCtr(bo.X) && isEpc(bo.Y) {
+					if !dominatedByCmpDepth(blk, func(op token.Token, x, y ssa.Value) bool {
+						return (op == token.LSS && isEpc(x) && isCtr(y)) || (op == token.GTR && isCtr(x) && isEpc(y))
+					}, 2) {
+						return "the subtraction is not guarded by `epoch count < counter`"
+					}
+					return ""
 				}
-				return
+				// a helper of the package computing the clamped difference of two of its parameters
+				if cl, isC := v.(*ssa.Call); isC && depth == 0 {
+					if h := cl.Call.StaticCallee(); h != nil && h.Pkg == fn.Pkg && len(h.Blocks) > 0 && h.Signature.Recv() == nil {
+						ci, ei := -1, -1
+						for i, a := range cl.Call.Args {
+							if isCtr(a) {
+								ci = i
+							}
+							if isEpc(a) {
+								ei = i
+							}
+						}
+						if ci >= 0 && ei >= 0 && ci != ei {
+							pc, pe := h.Params[ci], h.Params[ei]
+							res := ""
+							nRet := 0
+							allInstrs(h, func(hi ssa.Instruction) {
+								r, ok := hi.(*ssa.Return)
+								if !ok || len(r.Results) != 1 {
+									return
+								}
+								nRet++
+								rv := returnedValue(r, 0)
+								vals := []ssa.Value{rv}
+								blks := []*ssa.BasicBlock{r.Block()}
+								if phi, isPhi := rv.(*ssa.Phi); isPhi {
+									vals, blks = nil, nil
+									for i, e := range phi.Edges {
+										vals = append(vals, e)
+										blks = append(blks, phi.Block().Preds[i])
+									}
+								}
+								for i := range vals {
+									if m := judge(blks[i], vals[i], func(x ssa.Value) bool { return stripConv(x) == ssa.Value(pc) }, func(x ssa.Value) bool { return stripConv(x) == ssa.Value(pe) }, 1); m != "" && res == "" {
+										res = m + " (in " + h.Name() + ")"
+									}
+								}
+							})
+							if nRet > 0 {
+								return res
+							}
+						}
+					}
+				}
+				return "the counter is lowered by something other than the popped block's own epoch count"
 			}
-			bad = "the counter is lowered by something other than the popped block's own epoch count"
+			if m := judge(st.Block(), st.Val, isCounter, isEpochCount, 0); m != "" {
+				bad = m
+			}
 		})
 		if nStores == 0 {
 			bad = "the counter is not lowered at all"
@@ -4406,52 +4504,52 @@ func runR068(c *Ctx) {
 func init() {
 	register(&Rule{
 		ID: "R11.9", Props: []string{"C11", "C17"}, Engine: "guard + constant argument (SSA)",
-		Text: "a sink that lacks the object after a copy is a server fault, not NOT_FOUND: in notFoundToInternalErrorHandler.OnError every return on the NOT_FOUND edge carries an error built with an explicit INTERNAL code (StatusWrapWithCode / status.Error(f) with codes.Internal) – a wrapper that keeps the original code would let the mirrored and caching composites mistake the failed repair for `neither replica has it`",
+		Text:  "a sink that lacks the object after a copy is a server fault, not NOT_FOUND: in notFoundToInternalErrorHandler.OnError every return on the NOT_FOUND edge carries an error built with an explicit INTERNAL code (StatusWrapWithCode / status.Error(f) with codes.Internal) – a wrapper that keeps the original code would let the mirrored and caching composites mistake the failed repair for `neither replica has it`",
 		Floor: 1, MustExist: true, Run: runR119,
 	})
 	register(&Rule{
 		ID: "R17.9", Props: []string{"C17", "C11"}, Engine: "return-shape (SSA)",
-		Text: "reads through a replicating composite always carry the fall-over: GetWithBlobReplicator and GetFromCompositeWithBlobReplicator return nothing but buffer.WithErrorHandler applied to the initial backend's buffer and a handler that holds the replicator selector – a buffer of the first backend is never returned bare (stream-backed buffers fail only when read)",
+		Text:  "reads through a replicating composite always carry the fall-over: GetWithBlobReplicator and GetFromCompositeWithBlobReplicator return nothing but buffer.WithErrorHandler applied to the initial backend's buffer and a handler that holds the replicator selector – a buffer of the first backend is never returned bare (stream-backed buffers fail only when read)",
 		Floor: 2, MustExist: true, Run: runR179,
 	})
 	register(&Rule{
 		ID: "R12.12", Props: []string{"C12", "C11", "C17", "C19"}, Engine: "wiring table (configuration package)",
-		Text: "the configuration never hands out a composite's backend bare: in newNestedBlobAccessBare every successful return that names its backend type sharding, mirrored, read_caching, read_fallback or demultiplexing carries a BlobAccess built by the corresponding constructor (NewShardingBlobAccess, NewMirroredBlobAccess, NewReadCachingBlobAccess, NewReadFallbackBlobAccess, NewDemultiplexingBlobAccess)",
+		Text:  "the configuration never hands out a composite's backend bare: in newNestedBlobAccessBare every successful return that names its backend type sharding, mirrored, read_caching, read_fallback or demultiplexing carries a BlobAccess built by the corresponding constructor (NewShardingBlobAccess, NewMirroredBlobAccess, NewReadCachingBlobAccess, NewReadFallbackBlobAccess, NewDemultiplexingBlobAccess)",
 		Floor: 5, MustExist: true, Run: runR1212,
 	})
 	register(&Rule{
 		ID: "R15.6", Props: []string{"C15"}, Engine: "order (SSA reachability)",
-		Text: "release before waiting: in the Close methods of the background-task decorators (chunkReaderWithBackgroundTask, readerWithBackgroundTask) the wrapped reader is closed before the task's completion is awaited – the task may be consuming the sibling of the same clone group and can only finish once this consumer has let go",
+		Text:  "release before waiting: in the Close methods of the background-task decorators (chunkReaderWithBackgroundTask, readerWithBackgroundTask) the wrapped reader is closed before the task's completion is awaited – the task may be consuming the sibling of the same clone group and can only finish once this consumer has let go",
 		Floor: 2, MustExist: true, Run: runR156,
 	})
 	register(&Rule{
 		ID: "R04.7", Props: []string{"C04", "C15", "C16"}, Engine: "typestate over a reader field (path automaton)",
-		Text: "only Close closes: in package buffer, for every type whose Close method closes a reader it holds in a field, no other method of the type closes that field's reader unless it installs a replacement (or nil) in the field on every path before it returns – otherwise the consumer's Close closes the same stream twice and a shared, reference-counted source is released under its other clones",
+		Text:  "only Close closes: in package buffer, for every type whose Close method closes a reader it holds in a field, no other method of the type closes that field's reader unless it installs a replacement (or nil) in the field on every path before it returns – otherwise the consumer's Close closes the same stream twice and a shared, reference-counted source is released under its other clones",
 		Floor: 2, MustExist: true, Run: runR047,
 	})
 	register(&Rule{
 		ID: "R17.10", Props: []string{"C17"}, Engine: "who-may-call",
-		Text: "the existence cache keeps full-resolution times: no method of digest.ExistenceCache converts a clock value to a coarser unit (Time.Unix, UnixMilli, UnixMicro, Truncate, Round) – expiry decided on truncated timestamps keeps entries alive beyond the configured duration",
+		Text:  "the existence cache keeps full-resolution times: no method of digest.ExistenceCache converts a clock value to a coarser unit (Time.Unix, UnixMilli, UnixMicro, Truncate, Round) – expiry decided on truncated timestamps keeps entries alive beyond the configured duration",
 		Floor: 1, MustExist: false, Run: runR1710,
 	})
 	register(&Rule{
 		ID: "R19.10", Props: []string{"C19"}, Engine: "order (path automaton)",
-		Text: "the hierarchical fallback tries every ancestor: in both error handlers of hierarchicalInstanceNamesBlobAccess the decision that no ancestor is left (the return that passes the NOT_FOUND on) is taken on the list as it stands – on no path has the list already been shortened in that call – and by comparing its length with exactly one",
+		Text:  "the hierarchical fallback tries every ancestor: in both error handlers of hierarchicalInstanceNamesBlobAccess the decision that no ancestor is left (the return that passes the NOT_FOUND on) is taken on the list as it stands – on no path has the list already been shortened in that call – and by comparing its length with exactly one",
 		Floor: 2, MustExist: true, Run: runR1910,
 	})
 	register(&Rule{
 		ID: "R19.11", Props: []string{"C19", "C20"}, Engine: "table (literal completeness, AST)",
-		Text: "a trie node without a registered value says so: every composite literal of instanceNameTrieNode in pkg/digest sets the value field explicitly (-1 for nodes that only lead to longer prefixes); the zero value would read as `backend 0 is registered here`",
+		Text:  "a trie node without a registered value says so: every composite literal of instanceNameTrieNode in pkg/digest sets the value field explicitly (-1 for nodes that only lead to longer prefixes); the zero value would read as `backend 0 is registered here`",
 		Floor: 2, MustExist: true, Run: runR1911,
 	})
 	register(&Rule{
 		ID: "R20.12", Props: []string{"C20"}, Engine: "order of a length and an append (SSA)",
-		Text: "a position is recorded before the list grows: in Set.PartitionByInstanceName the index stored for a newly seen instance name is the length of the partition list taken before that name's partition is appended (so that it is the position of that partition)",
+		Text:  "a position is recorded before the list grows: in Set.PartitionByInstanceName the index stored for a newly seen instance name is the length of the partition list taken before that name's partition is appended (so that it is the position of that partition)",
 		Floor: 1, MustExist: true, Run: runR2012,
 	})
 	register(&Rule{
 		ID: "R20.13", Props: []string{"C20"}, Engine: "guard (SSA dominance, enumerated idiom)",
-		Text: "redundant slashes are rejected: every successful return of digest.NewInstanceName is dominated by the failing edges of strings.HasPrefix(value, \"/\"), strings.HasSuffix(value, \"/\") and strings.Contains(value, \"//\") and by the nil result of validateInstanceNameComponents (the repository's idiom for `no leading, trailing or doubled separator and no reserved keyword`)",
+		Text:  "redundant slashes are rejected: every successful return of digest.NewInstanceName is dominated by the failing edges of strings.HasPrefix(value, \"/\"), strings.HasSuffix(value, \"/\") and strings.Contains(value, \"//\") and by the nil result of validateInstanceNameComponents (the repository's idiom for `no leading, trailing or doubled separator and no reserved keyword`)",
 		Floor: 1, MustExist: true, Run: runR2013,
 	})
 }
